@@ -60,7 +60,11 @@ def perform(o, family, form=0, quiet=False):
 
     k = o["k"]
     skip = (o["n"],) if k == "ct" else ()
-    steps = N.build_forest(family, o["prepar"], o["prech"], skip=skip)
+    try:
+        steps = N.build_forest(family, o["prepar"], o["prech"], skip=skip)
+    except Exception as e:  # noqa: building through the public API failed -- an observation, too
+        N.Ctx.log = None
+        return {"build_failed": True, "steps": [], "built": "raised %s: %s" % (type(e).__name__, str(e)[:200]), "exc": "Other:" + type(e).__name__}
     N.Ctx.snap_hooks = not quiet
     if quiet:
         # one read of every node's children long before the call (what a cache would remember) ...
@@ -146,6 +150,7 @@ def worker_init(repo, assertions, reclimit=220):
     sys.setrecursionlimit(reclimit)
 
 
+@core.safe_worker
 def replay_chunk(args):
     """args = (lines, families) -> list of result dicts for vectors that need attention, plus counters."""
     import json
@@ -223,6 +228,7 @@ def strip_snap(o):
     return o
 
 
+@core.safe_worker
 def replay_chunk_quiet(args):
     """Vectors replayed without any harness read during the call; only outcome and final forest are compared."""
     import json
@@ -242,7 +248,9 @@ def replay_chunk_quiet(args):
                 obs = core.call_with_deadline(lambda: perform(pred, fam, form0, quiet=True))
             except core.Hang:
                 obs = dict(pred, exc="Other:Hang", src=0, log=[])
-            if obs["exc"] == pred["exc"] and obs["postpar"] == pred["postpar"] and obs["postch"] == pred["postch"]:
+            if obs.get("build_failed"):
+                out["dropped"] += 1
+            elif obs["exc"] == pred["exc"] and obs["postpar"] == pred["postpar"] and obs["postch"] == pred["postch"]:
                 out["same"] += 1
             elif len(out["attention"]) < 6:
                 out["attention"].append({"family": fam, "pred": pred, "obs": obs, "flags": {k: vec[k] for k in ("c01", "c02", "c03", "c03a", "c16")}, "why": "quiet"})
